@@ -216,7 +216,7 @@ func isQueryCall(e ast.Expr, reqs map[string]bool) bool {
 	return ok && reqs[id.Name]
 }
 
-func reqField(e ast.Expr, reqs map[string]bool, field string) bool {
+func prReqField(e ast.Expr, reqs map[string]bool, field string) bool {
 	s, ok := e.(*ast.SelectorExpr)
 	if !ok || s.Sel.Name != field {
 		return false
@@ -320,7 +320,7 @@ func (c *pCtx) summarize(pf *pFunc) (*pSummary, error) {
 					return true
 				}
 				// X.Header.Get(name)
-				if s.Sel.Name == "Get" && len(x.Args) == 1 && reqField(s.X, reqs, "Header") {
+				if s.Sel.Name == "Get" && len(x.Args) == 1 && prReqField(s.X, reqs, "Header") {
 					markReq(s.X)
 					addRead("header", x.Args[0])
 					return true
@@ -341,12 +341,12 @@ func (c *pCtx) summarize(pf *pFunc) (*pSummary, error) {
 					}
 				}
 				// X.URL.String()
-				if s.Sel.Name == "String" && reqField(s.X, reqs, "URL") {
+				if s.Sel.Name == "String" && prReqField(s.X, reqs, "URL") {
 					markReq(s.X)
 					return true
 				}
 				// dec.Decode(&target, X.Form)
-				if s.Sel.Name == "Decode" && len(x.Args) == 2 && (reqField(x.Args[1], reqs, "Form") || reqField(x.Args[1], reqs, "PostForm")) {
+				if s.Sel.Name == "Decode" && len(x.Args) == 2 && (prReqField(x.Args[1], reqs, "Form") || prReqField(x.Args[1], reqs, "PostForm")) {
 					markReq(x.Args[1])
 					st, err := c.targetStruct(fd, x.Args[0])
 					if err != nil {
@@ -377,7 +377,7 @@ func (c *pCtx) summarize(pf *pFunc) (*pSummary, error) {
 					}
 				}
 				// io.ReadAll(X.Body)
-				if s.Sel.Name == "ReadAll" && len(x.Args) == 1 && reqField(x.Args[0], reqs, "Body") {
+				if s.Sel.Name == "ReadAll" && len(x.Args) == 1 && prReqField(x.Args[0], reqs, "Body") {
 					markReq(x.Args[0])
 					return true
 				}
@@ -445,13 +445,13 @@ func (c *pCtx) summarize(pf *pFunc) (*pSummary, error) {
 				addRead("path", x.Index)
 				return true
 			}
-			if reqField(x.X, reqs, "Form") || reqField(x.X, reqs, "PostForm") {
+			if prReqField(x.X, reqs, "Form") || prReqField(x.X, reqs, "PostForm") {
 				markReq(x.X)
 				addRead("form", x.Index)
 				return true
 			}
 		case *ast.RangeStmt:
-			if reqField(x.X, reqs, "Form") || reqField(x.X, reqs, "PostForm") {
+			if prReqField(x.X, reqs, "Form") || prReqField(x.X, reqs, "PostForm") {
 				markReq(x.X)
 				key, ok := x.Key.(*ast.Ident)
 				if !ok {
